@@ -181,7 +181,13 @@ func (c *Ctx) finish(err error) int {
 	if len(kinds) > 0 {
 		c.Ev.Set("violation_kinds", kinds)
 	}
-	if werr := c.Ev.Write(filepath.Join(run.VerifDir(), "evidence")); werr != nil {
+	evDir := filepath.Join(run.VerifDir(), "evidence")
+	if os.Getenv("VERIF_REPO") != "" && os.Getenv("VERIF_REPO") != "/repo" {
+		// trial run against another checkout (seeded change): its evidence must
+		// not replace the evidence of /repo
+		evDir = filepath.Join(os.TempDir(), "verif-trial-evidence")
+	}
+	if werr := c.Ev.Write(evDir); werr != nil {
 		fmt.Fprintf(os.Stderr, "cannot write evidence: %v\n", werr)
 		return 2
 	}
